@@ -353,3 +353,7 @@ META = {
     'technique': 'static analysis: path-forking symbolic execution with linear forms over alignment coordinates, exhaustive enumeration of boolean atoms, mirror-symmetry and table comparison',
     'design_ref': 'DESIGN.md section 5, C09',
 }
+
+
+from . import shared as _shared
+_shared.register('C09', 'C09')
